@@ -79,6 +79,7 @@ class C13(Check):
     def batches(self, tier, rng, real):
         quick = tier == "quick"
         self.sweeps = 0
+        real.inner.long_lived_filters = True
         for _ in range(300 if quick else 3000):
             lines, outs = gen.random_history(rng, real, all_ops, rng.randint(3, 14), audit=())
             p = gen.Pool()
@@ -113,6 +114,20 @@ class C13(Check):
         if deep(real) != pre:
             return "%s (answered %s) changed an attribute set / value / container of some object" % (line, out)
         t = line.split()
+        # observably unchanged also means: what OTHER read-only calls answer afterwards is unchanged
+        if Vertex.NEIGHBOR_CACHING and t[0] in ("plain", "puml", "pyvis", "bft", "dftr", "dfti", "bfs", "dfsr", "dfsi"):
+            for v in real.V:
+                try:
+                    got = [id(x) for x in helpers.neighbors(v, 0, 1)]
+                except Exception:  # noqa: BLE001
+                    continue
+                Vertex.NEIGHBOR_CACHING = False
+                try:
+                    want = [id(x) for x in helpers.neighbors(v, 0, 1)]
+                finally:
+                    Vertex.NEIGHBOR_CACHING = True
+                if got != want:
+                    return "after %s, neighbors(%s) answers differently from a recomputation" % (line, real.sv(v))
         # a faulted nbrs / flinks call: repeating it with a well-behaved callback gives the normal answer
         if (t[0] == "nbrs" and len(t) == 6) or (t[0] == "flinks" and len(t) == 7):
             again = real.step(" ".join(t[:-1]))
@@ -247,7 +262,7 @@ class C12(Check):
                     nonlocal p
                     lines.append(op)
                     outs.append(real.step(op))
-                    p = p.after(op, outs[-1])
+                    p = gen.Pool.from_real(real.inner)     # builders create several objects at once
                 do("reset")
                 if rng.random() < 0.6:
                     do("flag on")
